@@ -28,6 +28,22 @@ CHECKS = {
    design_ref="DESIGN.md §4 C16",
    note="Trusted: effect table + restated handle_tail_call semantics (validated against the real executor). Heap reclamation of dropped binaries is not decided (C06).",
  ),
+ "C05": dict(
+   engine="E2 Kani/CBMC",
+   technique="Kani proof harness over the real private handle_select_timeout (scratch copy of quiver-core with an appended child module); counterexamples replayed by Kani concrete playback",
+   category="model_checking",
+   text="TIMEOUT CLAUSE ONLY. Decided for all (timeout: i64, start: u64, now: u64): a timeout source fires iff elapsed >= max(duration, 0) - never earlier than its duration after the select started waiting, a non-positive one at once - and yields nil. Source priority, mailbox order, filters, cursors, error propagation are NOT decided: that code owns Values and the process map, which CBMC cannot get through (DESIGN §2); a change there is not detected by this check.",
+   design_ref="DESIGN.md §4 C05",
+   note="Trusted: Kani 0.68/CBMC 6.11; stub RandomState::new -> constant. Bound: none on the three scalars. Everything outside handle_select_timeout is outside the claim.",
+ ),
+ "C13": dict(
+   engine="E2 Kani/CBMC",
+   technique="Kani proof harnesses over the real create_ref on a fresh Executor with symbolic worker id and counter; concrete playback of counterexamples",
+   category="model_checking",
+   text="REF-UNIQUENESS CLAUSE ONLY. Decided for all worker ids (u16) and counters < 2^48: refs minted by (w1,c1) and (w2,c2) are equal iff it is the same minting, and the per-worker counter strictly increases, hence two refs are equal only if they come from the same minting, across workers. Reflexivity/symmetry/transitivity of structural equality over all construction paths is not decided (values_equal owns Values and ropes).",
+   design_ref="DESIGN.md §4 C13",
+   note="Trusted: Kani 0.68/CBMC 6.11; stub RandomState::new -> constant. Bound: 2^48 mintings per worker.",
+ ),
 }
 
 NOT_APPLICABLE = {
